@@ -86,14 +86,14 @@ type treePlan struct {
 func newTreePlan(seed int64, quick bool) *treePlan {
 	p := &treePlan{seed: seed, quick: quick}
 	if quick {
-		p.sys = systematicSpecs(3, []string{oOK, oErr, oPanicStr})
+		p.sys = systematicSpecs(3, []string{oOK, oErr, oPanicStr, oCompletePanic})
 		p.nRandom = 3000
 		p.lim = genLimits{maxStages: 16, maxDepth: 4, maxFan: 6}
 		p.orderCap = 24
 		p.randOrder = 2
 		p.freeRuns = 1
 	} else {
-		p.sys = systematicSpecs(4, []string{oOK, oErr, oPanicStr, oNFIgnored})
+		p.sys = systematicSpecs(4, []string{oOK, oErr, oPanicStr, oNFIgnored, oCompletePanic})
 		p.nRandom = 220_000
 		p.lim = genLimits{maxStages: 24, maxDepth: 4, maxFan: 6}
 		p.orderCap = 120
